@@ -123,13 +123,18 @@ func runCase(f *Family, hdr Header, c any, src string) (res CaseResult) {
 	}
 }
 
+var (
+	seedFlag = flag.Int64("seed", 1, "seed for random choices")
+	progress *string
+)
+
 func main() {
 	var ins inputs
 	family := flag.String("family", "", "case family")
 	prop := flag.String("prop", "", "property id (informational)")
 	out := flag.String("out", "", "result file")
 	maxReport := flag.Int("max-report", 25, "max failures kept in the result")
-	progress := flag.String("progress", "", "write the source of each case here before running it (slow; crash attribution)")
+	progress = flag.String("progress", "", "write the source of each case here before running it (slow; crash attribution)")
 	flag.Var(&ins, "in", "TLC output file (repeatable)")
 	flag.Parse()
 	if err := abs.LoadPools(); err != nil {
@@ -138,6 +143,22 @@ func main() {
 	}
 	if *family == "selftest" {
 		selftest()
+		return
+	}
+	if *family == "conc-record" || *family == "stress" {
+		var r Result
+		if *family == "conc-record" {
+			r = concRecord(*concFlagOut, *concMaxEv)
+		} else {
+			r = runStress(*seedFlag)
+		}
+		r.Property = *prop
+		data, _ := json.MarshalIndent(r, "", " ")
+		if *out == "" {
+			os.Stdout.Write(data)
+		} else {
+			os.WriteFile(*out, data, 0o644)
+		}
 		return
 	}
 	f := families[*family]
